@@ -296,17 +296,20 @@ def has(root, p):
 # --------------------------------------------------------------------------------------------- paths (E2)
 
 class Path:
-    __slots__ = ('conds', 'stmts', 'term', 'value', 'node')
+    __slots__ = ('conds', 'stmts', 'term', 'value', 'node', 'seq')
 
-    def __init__(self, conds=(), stmts=(), term=None, value=None, node=None):
-        self.conds, self.stmts, self.term, self.value, self.node = list(conds), list(stmts), term, value, node
+    def __init__(self, conds=(), stmts=(), term=None, value=None, node=None, seq=()):
+        self.conds, self.stmts, self.term, self.value, self.node, self.seq = list(conds), list(stmts), term, value, node, list(seq)
 
     def ext(self, cond=None, stmt=None):
-        p = Path(self.conds, self.stmts, self.term, self.value, self.node)
+        """seq keeps conditions and statements in execution order: ('c', test, polarity) / ('s', stmt)"""
+        p = Path(self.conds, self.stmts, self.term, self.value, self.node, self.seq)
         if cond is not None:
             p.conds.append(cond)
+            p.seq.append(('c', cond[0], cond[1]))
         if stmt is not None:
             p.stmts.append(stmt)
+            p.seq.append(('s', stmt))
         return p
 
     def assumes(self, text, polarity=True):
